@@ -503,3 +503,23 @@ GROUPS["g15"] = [
       "                source.truncate(source.len() - span.len());\n                if let Some(first) = source.get_mut(span.start) {\n                    *first = first.to_ascii_uppercase();\n                }",
       "R-C03-copy:Suggestion::apply:stores"),
 ]
+
+GROUPS["g16"] = [
+    # an explicit `false` is dropped when the receiving config has no entry (the shape of seeded/C11-b)
+    E("c11-merge-sparse", ["C11"], "harper-core/src/linting/lint_group.rs",
+      "            if val.is_none() {\n                continue;\n            }\n\n            self.inner.insert(key.to_string(), *val);",
+      "            match val {\n                None => continue,\n                Some(false) if !self.inner.contains_key(key) => continue,\n                Some(_) => {\n                    self.inner.insert(key.to_string(), *val);\n                }\n            }",
+      "R-C11-merge:LintGroupConfig::merge_from"),
+    # a language id guessed for documents nobody opened (the shape of seeded/C09-b)
+    E("c09-language-fallback", ["C09"], "harper-ls/src/backend.rs",
+      "                language_id: language_id.map(|v| v.to_string()),",
+      "                language_id: language_id\n                    .map(|v| v.to_string())\n                    .or_else(|| url.path().rsplit('.').next().map(|e| e.to_string())),",
+      "R-C09-close:update_document:created-language-id"),
+]
+GROUPS["p7"] = [
+    # the same merge written as a match
+    E("p-c11-merge-match", ["C11"], "harper-core/src/linting/lint_group.rs",
+      "            if val.is_none() {\n                continue;\n            }\n\n            self.inner.insert(key.to_string(), *val);",
+      "            match val {\n                None => continue,\n                Some(_) => {\n                    self.inner.insert(key.to_string(), *val);\n                }\n            }",
+      None),
+]
